@@ -342,6 +342,7 @@ class C11(RS.StepProp):
         mt = '.{#M=[$]C([$])[$],#T=[$]O}'
         lv2 = '.{#R1=[#M][#N][>],#R2=[<][#N][#M]}.{#M=[$]CC[$],#N=[$]O[$]}'
         lv3 = '.{#P=[$][#A][#B][$],#Q=[$][#B][#A][$]}.{#A=[$][#C][#C][$],#B=[$][#C][$]}.{#C=[$]C[$]}'
+        r4 = '.{#A=[$]CO[$],#B=[$]CC[$],#C=[$]CN[$],#D=[$]CS[$]}'
         return [
             {'kind': 0, 'orig': '{[#A][#B]}' + fr, 'modf': '{[#V].[#A][#B]}' + fr, 'rho': [[0, 1], [1, 2]], 'aa': True, 'legacy': True},
             {'kind': 0, 'orig': '{[#A][#B]}' + fr, 'modf': '{[#A][#B].[#V]}' + fr, 'rho': [[0, 0], [1, 1]], 'aa': True, 'legacy': True},
@@ -361,6 +362,20 @@ class C11(RS.StepProp):
              'rho': [[0, 0], [1, 2], [2, 3]], 'aa': True, 'legacy': True, 'ctor': 'graph_reused'},
             {'kind': 0, 'orig': '{[#A].[#B]}' + cg, 'modf': '{[#A].[#V].[#B]}' + cg, 'rho': [[0, 0], [1, 2]], 'aa': False, 'legacy': True, 'ctor': 'graph_reused'},
             {'kind': 0, 'orig': '{[#P][#Q]}' + ml, 'modf': '{[#P].([#V])[#Q]}' + ml, 'rho': [[0, 0], [1, 2]], 'aa': True, 'legacy': True, 'level': 0, 'ctor': 'graph_reused'},
+            # one node closes TWO ring markers, the inert one written before / after the real one; virtual nodes attached by
+            # ring bonds at the first, a middle and the last position (seed C11-9: the second closure of a node was lost)
+            {'kind': 0, 'orig': '{[#A]1[#B][#C][#D]1}' + r4, 'modf': '{[#A]1[#B].2[#C][#D]12}' + r4,
+             'rho': [[k, k] for k in range(4)], 'aa': True, 'legacy': True},
+            {'kind': 0, 'orig': '{[#A]1[#B][#C][#D]1}' + r4, 'modf': '{[#A]1[#B].2[#C][#D]21}' + r4,
+             'rho': [[k, k] for k in range(4)], 'aa': True, 'legacy': True},
+            {'kind': 0, 'orig': '{[#A]1[#B][#C][#D]1}' + r4, 'modf': '{[#V].2.[#A]1[#B][#C][#D]21}' + r4,
+             'rho': [[k, k + 1] for k in range(4)], 'aa': True, 'legacy': True},
+            {'kind': 0, 'orig': '{[#A]1[#B][#C][#D]1}' + r4, 'modf': '{[#A]1[#B][#C].([#V].2)[#D]21}' + r4,
+             'rho': [[0, 0], [1, 1], [2, 2], [3, 4]], 'aa': True, 'legacy': True},
+            {'kind': 0, 'orig': '{[#A]1[#B][#C][#D]1}' + r4, 'modf': '{[#V].3.[#A]1.4[#B].5[#C][#D]31.[#W]45}' + r4,
+             'rho': [[k, k + 1] for k in range(4)], 'aa': True, 'legacy': True},
+            {'kind': 0, 'orig': '{[#A]1[#B][#C][#D]1}' + r4, 'modf': '{[#A]1.2[#B].3[#C][#D]1.[#V]23}' + r4,
+             'rho': [[k, k] for k in range(4)], 'aa': True, 'legacy': True},
             # a ring index used by a zero-order ring bond is used again by a later ordinary ring (seed C11-8)
             {'kind': 0, 'orig': '{[#T][#M][#M][#M]1[#M][#M]1}' + mt, 'modf': '{[#T].1[#M][#M]1[#M]1[#M][#M]1}' + mt,
              'rho': [[k, k] for k in range(6)], 'aa': True, 'legacy': True},
